@@ -81,7 +81,7 @@ def encode(c, eff, cap, caps, ops):
     return " ".join(str(t) for t in toks)
 
 
-def run_real(c, eff, cap, caps, ops, clock="fine", live=True):
+def run_real(c, eff, cap, caps, ops, clock="fine", live=True, twin_seed=None):
     P = mhsm.HsmEventProcessor
     saved = (P.RTC_RING_BUFFER_SIZE, P.SPY_RING_BUFFER_SIZE, P.TRC_RING_BUFFER_SIZE, mhsm.stdlib_datetime)
     P.RTC_RING_BUFFER_SIZE, P.SPY_RING_BUFFER_SIZE, P.TRC_RING_BUFFER_SIZE = caps
@@ -122,7 +122,14 @@ def run_real(c, eff, cap, caps, ops, clock="fine", live=True):
         fns = c.build(log, spied=True, counter=hsm._vp_count, effects=effects)
         out = []
         steps = []       # per op: (handler-call log, new trace records) for the oracles
+        twin = queue_corr.Twin(twin_seed) if twin_seed is not None else None
+        if twin is not None:
+            twin.hsm.live_spy = twin.hsm.live_trace = True
+            twin.hsm.register_live_spy_callback(lambda line: None)
+            twin.hsm.register_live_trace_callback(lambda line: None)
         for o, a in ops:
+            if twin is not None:
+                twin.poke()
             del log[:]
             hsm._vp_calls = 0
             ntrace = len(hsm.full.trace)
@@ -202,10 +209,13 @@ def explore(run, focus, n_random):
     for k, mo in zip(cases, outs):
         c, eff, cap, caps, ops = k
         clock = rng.choice(["fine", "constant", "coarse", "backwards"]) if focus == "C21" else rng.choice(["fine", "fine", "coarse"])
-        real, final, steps = run_real(c, eff, cap, caps, ops, clock=clock)
+        twin_seed = rng.randrange(1 << 30) if rng.random() < 0.3 else None
+        real, final, steps = run_real(c, eff, cap, caps, ops, clock=clock, twin_seed=twin_seed)
         body, mfinal = mo.split(" || ")
         model = body.split(" | ")
-        cj = queue_corr.case_json(c, eff, cap, ops, caps=list(caps), clock=clock)
+        cj = queue_corr.case_json(c, eff, cap, ops, caps=list(caps), clock=clock, twin_seed=twin_seed)
+        if twin_seed is not None:
+            run.count("a second instrumented chart object busy alongside")
         run.traces_validated += 1
         run.count("clock " + clock)
         run.count("rings %s" % ("small" if caps[0] < 250 else "real"))
@@ -516,7 +526,7 @@ def replay(case):
         return 0
     c, eff, cap, ops = queue_corr.from_json(cc)
     caps = tuple(cc.get("caps", (250, 500, 500)))
-    real, final, _ = run_real(c, eff, cap, caps, ops, clock=cc.get("clock", "fine"))
+    real, final, _ = run_real(c, eff, cap, caps, ops, clock=cc.get("clock", "fine"), twin_seed=cc.get("twin_seed"))
     mo = leanrun.run_driver([encode(c, eff, cap, caps, ops)])[0]
     print("impl :", real, {k: v for k, v in final.items() if k in ("full", "trace", "livespy")}, live_trace_tokens(final))
     print("model:", mo)
